@@ -256,6 +256,7 @@ fn spaces(rng: &mut Rng) -> &'static str {
 fn gen_line(rng: &mut Rng, kd: &str, fd: &str) -> String {
     let n = 1 + rng.below(4);
     let mut line = String::new();
+    let mut first_key = String::new();
     line.push_str(spaces(rng));
     for i in 0..n {
         if i > 0 {
@@ -266,7 +267,11 @@ fn gen_line(rng: &mut Rng, kd: &str, fd: &str) -> String {
             }
             line.push_str(spaces(rng));
         }
-        let k = gen_token(rng, 1);
+        // duplicate keys exercise the grouping into arrays
+        let k = if i > 0 && rng.chance(1, 4) { first_key.clone() } else { gen_token(rng, 1) };
+        if i == 0 {
+            first_key = k.clone();
+        }
         if rng.chance(1, 3) {
             line.push_str(&quote_token(rng, &k));
         } else {
@@ -435,6 +440,23 @@ pub fn generate(sink: &mut Sink, rng: &mut Rng, n: u64) {
         for (kd, fd) in [("=", " "), (":", ","), ("--", "||"), (" ", ",")] {
             emit_kv_oracle(sink, o, kd, fd);
         }
+    }
+    // flattening: nesting, arrays, key collisions, empty containers, non-string leaves
+    for v in [
+        "{ k:61 { k:62 i:1 } k:612e62 i:2 }",
+        "{ k:61 [ i:1 [ i:2 i:3 ] ] k:612e30 b:78 }",
+        "{ k:61 { } k:62 [ ] }",
+        "{ k:61 t k:62 f k:63 n k:64 i:-9223372036854775808 }",
+        "{ k:61 { k:62 { k:63 b:7820 } } k:7a t }",
+        "{ k:6120 { k:2062 b:78 } }",
+        "{ k:61 [ t f ] }",
+    ] {
+        for fb in ["0", "1"] {
+            for (kd, fd) in [("=", " "), (":", ","), ("", "")] {
+                sink.emit("kv.encode", &[v.to_string(), h(kd), h(fd), fb.into()]);
+            }
+        }
+        sink.emit("kv.logfmt.enc", &[v.to_string()]);
     }
     let edge_lines = [
         "", " ", "k", "k=", "=v", "k=v", "k = v", "k=v  k2=v2", "\"k\"=\"v\"", "'k'='v'", "k='v' x", "k=\"v\" x", "k=\"a\\\"b\"", "k=\"a\\nb\"",
